@@ -6,9 +6,6 @@ ListedDevs == {"Dev_ComputedModelListenerNoColon"}
 Init == c \in 1..NObs /\ done = FALSE
 Finish ==
   /\ ~done /\ done' = TRUE /\ c' = c
-  /\ LET ob == Obs[c]
-         w  == WhyElem(ob, {})
-     IN PrintT(ToJson(Verdict(ob, w = "", w, TRUE,
-                              IF w = "" THEN {} ELSE {d \in ListedDevs : WhyElem(ob, {d}) = ""})))
+  /\ LET ob == Obs[c] IN PrintT(ToJson(Judged(ob, WhyElem, ListedDevs, TRUE)))
 Next == Finish
 =============================================================================
